@@ -82,15 +82,19 @@ func decisionTableRaw(fn *ssa.Function, nilError bool) (atomsOut []string, table
 	}
 	atomKey := map[ssa.Value]akey{}
 	// comparisons with == / != are one atom "A == B" (operands sorted), negated for !=
+	rv := func(v ssa.Value) string {
+		// the marks of unfolded once-assigned locals carry no meaning for an atom's identity
+		return strings.NewReplacer("‹", "", "›", "").Replace(renderValueDeep(v))
+	}
 	canon := func(v ssa.Value) akey {
 		if bo, ok := v.(*ssa.BinOp); ok && (bo.Op == token.EQL || bo.Op == token.NEQ) {
-			a, b := renderValueDeep(bo.X), renderValueDeep(bo.Y)
+			a, b := rv(bo.X), rv(bo.Y)
 			if a > b {
 				a, b = b, a
 			}
 			return akey{a + " == " + b, bo.Op == token.NEQ}
 		}
-		return akey{renderValueDeep(v), false}
+		return akey{rv(v), false}
 	}
 	var atoms []string
 	seenAtom := map[string]bool{}
